@@ -626,7 +626,7 @@ impl DgramApp {
             return Err(Fail::new(
                 "ingress:datagram-not-delivered-although-reassembler-limits-respected",
                 format!(
-                    "node {} should have produced: {} (datagram #{} of node {}, tag {:?}, {} octets in {} frame(s)); every fragment arrived, within {} datagrams in progress, {} disjoint ranges and the 60 s timeout (model refusals so far: slots {}, ranges {}, expired {}), and the raw-IP twin delivered it",
+                    "node {} should have produced: {} (datagram #{} of node {}, tag {:?}, {} octets in {} frame(s)); every fragment arrived, within {} datagrams in progress, {} disjoint ranges and the reassembly timeout (model refusals so far: slots {}, ranges {}, expired {}), and the raw-IP twin delivered it",
                     side,
                     ev.brief(),
                     id,
